@@ -156,6 +156,7 @@ impl CoreInner {
 		// database
 		let mut lockfile = LockFile::new(&opts.path);
 		lockfile.acquire()?;
+		verif_yield!("open.locked");
 
 		// Initialize immutable memtables
 		let immutable_memtables = Arc::new(RwLock::new(ImmutableMemtables::default()));
@@ -163,6 +164,7 @@ impl CoreInner {
 		// Initialize level manifest FIRST to get log_number
 		let manifest = LevelManifest::new(Arc::clone(&opts))?;
 		let manifest_log_number = manifest.get_log_number();
+		verif_yield!("open.manifest_loaded");
 
 		// Initialize WAL starting from manifest.log_number
 		let wal_path = opts.wal_dir();
@@ -1266,6 +1268,7 @@ impl Core {
 		// Clean up any orphaned VLog files that are no longer referenced by any SST
 		// SAFETY: This must happen AFTER manifest is loaded so we know which SSTs exist
 		inner.cleanup_orphaned_vlog_files()?;
+		verif_yield!("open.recovered");
 
 		// Trigger level compaction check at startup
 		task_manager.wake_up_level();
@@ -1390,6 +1393,7 @@ impl Core {
 		wal_guard.close().map_err(|e| Error::Other(format!("Failed to close WAL: {}", e)))?;
 		log::debug!("WAL #{:020} closed and synced", wal_log_number);
 		drop(wal_guard);
+		verif_yield!("close.wal_closed");
 
 		// Step 4.5: Clean up obsolete WAL files (synchronous cleanup)
 		// This happens AFTER closing the WAL to prevent deleting the active WAL file.
@@ -1412,12 +1416,14 @@ impl Core {
 			}
 		}
 
+		verif_yield!("close.wal_cleaned");
 		// Step 5: Flush all directories to ensure durability
 		log::debug!("Syncing directory structure...");
 		sync_directory_structure(&self.inner.opts).map_err(|e| {
 			Error::Other(format!("Failed to sync directories during shutdown: {}", e))
 		})?;
 		log::debug!("Directory sync complete");
+		verif_yield!("close.dirs_synced");
 
 		// Step 7: Release the database lock
 		let mut lockfile = self.inner.lockfile.lock()?;
